@@ -2506,6 +2506,61 @@ fn build_seeds(w: &World, signer: &FastSigner) -> Result<Seeds, String> {
         provisioning::Message::list(h(CHILD).convert(), h(PARENT).convert()),
         &beta_key
     ).map_err(|e| e.to_string())?.to_bytes().to_vec());
+    // a scripted sequence of well-formed, validly signed requests whose
+    // CONTENT is unusual: state-dependent paths behind the signature check
+    // (revocation of a certified key under an unknown class, a second
+    // revocation, issuance under an unknown class, ...)
+    let bad_rcn = ResourceClassName::from("no-such-class");
+    let other_csr = rpki::ca::csr::Csr::<(), ()>::construct_rpki_ca(
+        signer, &Kid::Id,
+        &uri::Rsync::from_str(&format!("{base}1/")).unwrap(),
+        &uri::Rsync::from_str(&format!("{base}1/evil.mft")).unwrap(),
+        None,
+    ).ok().and_then(|c| RpkiCaCsr::decode(c.as_slice()).ok());
+    let mut scripted: Vec<Vec<u8>> = vec![
+        issue.to_xml_bytes().to_vec(),
+        provisioning::Message::revoke(
+            sender.clone(), recipient.clone(),
+            provisioning::RevocationRequest::new(
+                bad_rcn.clone(), csr.public_key().key_identifier())
+        ).to_xml_bytes().to_vec(),
+        revoke.to_xml_bytes().to_vec(),
+        revoke.to_xml_bytes().to_vec(),
+        provisioning::Message::issue(
+            sender.clone(), recipient.clone(),
+            provisioning::IssuanceRequest::new(
+                bad_rcn.clone(), provisioning::RequestResourceLimit::new(),
+                csr.clone())
+        ).to_xml_bytes().to_vec(),
+        issue_lim.to_xml_bytes().to_vec(),
+        issue.to_xml_bytes().to_vec(),
+        provisioning::Message::revoke(
+            sender.clone(), recipient.clone(),
+            provisioning::RevocationRequest::new(
+                ResourceClassName::from(""), csr.public_key().key_identifier())
+        ).to_xml_bytes().to_vec(),
+    ];
+    if let Some(other) = other_csr {
+        // a second key for the same child, then both revoked in turn
+        scripted.push(provisioning::Message::issue(
+            sender.clone(), recipient.clone(),
+            provisioning::IssuanceRequest::new(
+                rcn.clone(), provisioning::RequestResourceLimit::new(),
+                other.clone())
+        ).to_xml_bytes().to_vec());
+        scripted.push(provisioning::Message::revoke(
+            sender.clone(), recipient.clone(),
+            provisioning::RevocationRequest::new(
+                bad_rcn.clone(), other.public_key().key_identifier())
+        ).to_xml_bytes().to_vec());
+        scripted.push(provisioning::Message::revoke(
+            sender.clone(), recipient.clone(),
+            provisioning::RevocationRequest::new(
+                rcn.clone(), other.public_key().key_identifier())
+        ).to_xml_bytes().to_vec());
+    }
+    scripted.push(revoke.to_xml_bytes().to_vec());
+    xml.insert("scripted6492", scripted);
     xml.insert("msg6492", msgs6492);
 
     //--- RFC 8181, sent by evil
@@ -2711,6 +2766,8 @@ struct Gen {
     shard: u64,
     nshards: u64,
     trunc: u64,
+    /// position in the scripted sequence of validly signed requests
+    scripted: u64,
 }
 
 fn weight(e: E) -> u32 {
@@ -2835,8 +2892,15 @@ impl Gen {
                     1 => "krill/0.15 \"x\" {}".into(), 2 => "kvh-c16".into(),
                     _ => String::new(),
                 };
-                (vec![self.handle(PARENT), ua],
-                 self.cms(cx, &s.cms6492, &s.xml["msg6492"], cheap))
+                let body = if !cheap && self.rng.chance(1, 12) {
+                    let list = &s.xml["scripted6492"];
+                    let m = &list[(self.scripted % list.len() as u64) as usize];
+                    self.scripted += 1;
+                    (cx.signer.cms(m, Kid::Id, 0), "signed-scripted".into())
+                } else {
+                    self.cms(cx, &s.cms6492, &s.xml["msg6492"], cheap)
+                };
+                (vec![self.handle(PARENT), ua], body)
             }
             E::Rfc8181 => (vec![self.handle(EVIL)],
                            self.cms(cx, &s.cms8181, &s.xml["msg8181"], cheap)),
@@ -3298,6 +3362,7 @@ fn worker(args: &Args, r: &mut Report) -> Result<(), String> {
     let mut g = Gen {
         rng: Rng::new(args.shard_seed().wrapping_mul(7919).wrapping_add(child_k)),
         shard: args.shard, nshards: args.nshards.max(1), trunc: 0,
+        scripted: 0,
     };
     let avoid: BTreeSet<String> = args.extra.get("avoid").map(|s| {
         s.split(',').map(|x| x.to_string()).collect()
